@@ -1,0 +1,63 @@
+//go:build verif
+
+package shell_operator
+
+// Verification-only exports (build tag "verif"): assemble a ShellOperator around a
+// given Kubernetes client (a fake cluster), without flags, HTTP listeners, debug
+// server or real kube config, and expose the unexported steps of Start().
+
+import (
+	"context"
+
+	"github.com/deckhouse/deckhouse/pkg/log"
+
+	klient "github.com/flant/kube-client/client"
+	"github.com/flant/shell-operator/pkg/hook"
+	objectpatch "github.com/flant/shell-operator/pkg/kube/object_patch"
+	metricstorage "github.com/flant/shell-operator/pkg/metric_storage"
+	"github.com/flant/shell-operator/pkg/task"
+	"github.com/flant/shell-operator/pkg/task/queue"
+)
+
+// VerifAssemble mirrors Init/AssembleCommonOperator/assembleShellOperator for the
+// parts that do not need a real cluster or listeners: metric storages, object
+// patcher, event managers, hook manager (hooks are discovered and asked for
+// --config) and the event handlers of initHookManager.
+func VerifAssemble(ctx context.Context, kubeClient *klient.Client, hooksDir, tempDir string, logger *log.Logger) (*ShellOperator, error) {
+	op := NewShellOperator(ctx, WithLogger(logger))
+	op.MetricStorage = metricstorage.NewMetricStorage(op.ctx, "verif_", true, logger)
+	op.HookMetricStorage = metricstorage.NewMetricStorage(op.ctx, "verif_", true, logger)
+	registerCommonMetrics(op.MetricStorage)
+	registerTaskQueueMetrics(op.MetricStorage)
+	registerKubeEventsManagerMetrics(op.MetricStorage, map[string]string{"hook": "", "binding": "", "queue": ""})
+	registerHookMetrics(op.MetricStorage)
+	op.KubeClient = kubeClient
+	op.ObjectPatcher = objectpatch.NewObjectPatcher(kubeClient, logger)
+	op.SetupEventManagers()
+	op.setupHookManagers(hooksDir, tempDir)
+	if err := op.initHookManager(); err != nil {
+		return op, err
+	}
+	return op, nil
+}
+
+// VerifStart runs Start() without the HTTP server, the live metrics and the cron
+// scheduler (ticks are injected through ScheduleManager.Ch()).
+func (op *ShellOperator) VerifStart() {
+	op.bootstrapMainQueue(op.TaskQueues)
+	op.TaskQueues.StartMain()
+	op.initAndStartHookQueues()
+	op.ManagerEventsHandler.Start()
+}
+
+// VerifBootstrapMainQueue only fills the main queue.
+func (op *ShellOperator) VerifBootstrapMainQueue() { op.bootstrapMainQueue(op.TaskQueues) }
+
+// VerifInitAndStartHookQueues creates and starts the named queues.
+func (op *ShellOperator) VerifInitAndStartHookQueues() { op.initAndStartHookQueues() }
+
+// VerifTaskHandler is the queue handler.
+func (op *ShellOperator) VerifTaskHandler(t task.Task) queue.TaskResult { return op.taskHandler(t) }
+
+// VerifHookManager returns the hook manager.
+func (op *ShellOperator) VerifHookManager() *hook.Manager { return op.HookManager }
